@@ -136,13 +136,18 @@ fn read_float_array_value<'a>(src: &mut &'a [u8]) -> io::Result<Option<Value<'a>
 fn read_character_value<'a>(src: &mut &'a [u8]) -> io::Result<Option<Value<'a>>> {
     match read_typed_value(src)? {
         None | Some(TypedValue::String(None)) => Ok(None),
-        Some(TypedValue::String(Some(s))) => match s.len() {
-            1 => Ok(Some(Value::Character(s.chars().next().unwrap()))),
-            _ => Err(io::Error::new(
-                io::ErrorKind::InvalidData,
-                "invalid character value length",
-            )),
-        },
+        Some(TypedValue::String(Some(s))) => {
+            // A character is one `char`, which may be more than one byte of UTF-8.
+            let mut chars = s.chars();
+
+            match (chars.next(), chars.next()) {
+                (Some(c), None) => Ok(Some(Value::Character(c))),
+                _ => Err(io::Error::new(
+                    io::ErrorKind::InvalidData,
+                    "invalid character value length",
+                )),
+            }
+        }
         v => Err(type_mismatch_error(v, Type::Character)),
     }
 }
